@@ -5,6 +5,7 @@ import (
 	"go/token"
 	"go/types"
 	"reflect"
+	"strings"
 )
 
 // fieldInfo holds information about a struct field for code generation.
@@ -34,13 +35,23 @@ func (t *Transformer) transformStruct(ws *WireStruct, pkg *types.Package) *Kesso
 	// Collect fields to include (skip unexported fields from external packages)
 	var fieldInfos []fieldInfo
 	allFields := len(ws.Fields) > 0 && ws.Fields[0] == "*"
+	// wire looks a field name up without regard to case and takes the first field that matches
+	named := make(map[int]bool)
+	for _, name := range ws.Fields {
+		for i := range st.NumFields() {
+			if strings.EqualFold(st.Field(i).Name(), name) {
+				named[i] = true
+				break
+			}
+		}
+	}
 	for i := range st.NumFields() {
 		field := st.Field(i)
 		// wire does not fill fields tagged `wire:"-"` when "*" is given
 		if allFields && reflect.StructTag(st.Tag(i)).Get("wire") == "-" {
 			continue
 		}
-		if allFields || contains(ws.Fields, field.Name()) {
+		if allFields || named[i] {
 			// Skip unexported fields from external packages
 			if isExternalPkg && !field.Exported() {
 				continue
@@ -95,7 +106,7 @@ func (t *Transformer) transformFieldsOf(wf *WireFieldsOf, pkg *types.Package) *K
 	var fieldInfos []fieldInfo
 	for _, fieldName := range wf.Fields {
 		for field := range st.Fields() {
-			if field.Name() == fieldName {
+			if strings.EqualFold(field.Name(), fieldName) { // as wire does
 				// Skip unexported fields from external packages
 				if isExternalPkg && !field.Exported() {
 					break
